@@ -69,8 +69,12 @@ def main():
                 continue
             joined.append(cur)
             cur = ""
+        # shell variable assignments the compile line relies on (e.g. `S=/tmp/...; B=$S/_build`)
+        assigns = [c for c in joined if re.match(r"^(\$ )?([A-Za-z_]\w*=\S+\s*;?\s*)+$", c)]
+        pre = "; ".join(re.sub(r"^\$ ", "", a).rstrip("; ") for a in assigns)
         cmds = [c for c in joined if re.match(r"^(\$ )?(gcc|cc|g\+\+|clang)\b", c)]
-        cmds = [re.sub(r"^\$ ", "", c).replace(orig_wt, wt) for c in cmds]
+        cmds = [((pre + "; ") if pre else "") + re.sub(r"^\$ ", "", c) for c in cmds]
+        cmds = [c.replace(orig_wt, wt) for c in cmds]
         os.makedirs(os.path.join(wt, "seed_out"), exist_ok=True)
         shutil.copy(demo, os.path.join(wt, "seed_out", os.path.basename(demo)))
 
